@@ -18,11 +18,21 @@ type task struct {
 	top      *frame
 	isMain   bool
 	inSettle bool
+	vc       vclock
 }
 
 func (ex *Exec) newTask(name string, body func()) *task {
 	t := &task{id: len(ex.tasks), name: name, resume: make(chan struct{}), exited: make(chan struct{})}
 	t.isMain = len(ex.tasks) == 0
+	if ex.cfg.Race {
+		if ex.cur != nil {
+			t.vc = ex.curVC().copyVC()
+			ex.tick()
+		} else {
+			t.vc = vclock{}
+		}
+		t.vc[t.id] = 1
+	}
 	ex.tasks = append(ex.tasks, t)
 	go func() {
 		<-t.resume
@@ -96,7 +106,7 @@ func (ex *Exec) reportDeadlock() {
 	var desc []string
 	for _, t := range ex.tasks {
 		if !t.done && t.waiting != nil {
-			desc = append(desc, fmt.Sprintf("%s: %s", t.name, t.waitDesc))
+			desc = append(desc, fmt.Sprintf("%s: %s in %s", t.name, t.waitDesc, ex.fnChain(t.top, 4)))
 		}
 	}
 	func() {
@@ -165,10 +175,10 @@ func (ex *Exec) block(desc string, cond func() bool) {
 			if ex.fireSomeTimer() {
 				continue
 			}
-			cur.waiting = nil
 			if cur.isMain || !ex.tasks[0].done {
 				ex.reportDeadlock()
 			}
+			cur.waiting = nil
 			ex.endPath("deadlock")
 		}
 		ex.switchTo(ex.pick(cands))
@@ -239,6 +249,7 @@ func (ex *Exec) fireTimer(t *timerObj) {
 	ex.note("timer fired: %s", t.label)
 	if t.ch != nil {
 		t.ch.Buf = append(t.ch.Buf, ex.nowValue())
+		t.ch.BufVC = append(t.ch.BufVC, nil)
 	}
 	if t.onFire != nil {
 		t.onFire()
@@ -267,12 +278,14 @@ func (ex *Exec) chanSend(ch *Chan, v Value) {
 			ex.crash("send on closed channel")
 		}
 		ch.Buf = append(ch.Buf, v)
+		ch.BufVC = append(ch.BufVC, ex.releaseVC(nil))
 		return
 	}
 	// unbuffered: enqueue and wait for a receiver to take it
 	seq := ch.sent
 	ch.sent++
 	ch.Buf = append(ch.Buf, v)
+	ch.BufVC = append(ch.BufVC, ex.releaseVC(nil))
 	ex.block("chan send (unbuffered) "+ch.Name, func() bool { return ch.recvd > seq })
 }
 
@@ -286,9 +299,14 @@ func (ex *Exec) chanRecv(ch *Chan, elemZero Value) (Value, bool) {
 	if len(ch.Buf) > 0 {
 		v := ch.Buf[0]
 		ch.Buf = ch.Buf[1:]
+		if len(ch.BufVC) > 0 {
+			ex.acquireVC(ch.BufVC[0])
+			ch.BufVC = ch.BufVC[1:]
+		}
 		ch.recvd++
 		return v, true
 	}
+	ex.acquireVC(ch.CloseVC)
 	return elemZero, false
 }
 
@@ -300,6 +318,7 @@ func (ex *Exec) chanClose(ch *Chan) {
 		ex.crash("close of closed channel")
 	}
 	ch.Closed = true
+	ch.CloseVC = ex.releaseVC(ch.CloseVC)
 }
 
 func chanRecvReady(ch *Chan) bool { return ch != nil && (len(ch.Buf) > 0 || ch.Closed) }
